@@ -331,7 +331,7 @@ func (im *BlockImporter) importVoteproofs(ir isaac.BlockItemReader) error {
 				}
 			}
 
-			if err := base.IsValidVoteproofsWithManifest(vps, im.m.Manifest()); err != nil {
+			if err := isValidVoteproofsWithManifest(vps, im.m.Manifest()); err != nil {
 				return err
 			}
 
